@@ -4,25 +4,89 @@
    one file), Model/Parser.v.  Vocabulary: Spec/FormatSpec.v ([sem]: per directive the kind
    and the strings of date, accounts, quantities, commodities, description, annotations;
    [gaps]: the text before, between and after the directives).
-   All statements hold for every byte list and every letter/digit classification.
 
-   FULL STATEMENT of the round trip (NOT proved in general; evaluated on every generated case
-   by the check, with the Go parser on the Go formatter's output):
+   THE ROUND TRIP IS PROVED AT FULL STRENGTH for every byte list and every directive kind
+   (C08_roundtrip), by the context-lemma method of DESIGN.md Appendix B.3
+   (Proofs/RoundTrip*.v): every leaf of a parsed tree is in its lexical class (inversion),
+   the formatter copies leaf bytes and gaps verbatim and puts a blank, a newline, ',' or ')'
+   behind every token, and in front of such text every parser function succeeds, consumes
+   exactly the printed text and yields ranges whose slices are the printed leaves
+   (construction); parseFile's loop over a gap consumes exactly the gap.
 
-     C08_roundtrip : forall letter digit t f out,
+   The statement as first written in DESIGN.md,
+
+     forall letter digit t f out,
        parse_text letter digit t = ParseOk f -> format_text letter digit t f = FOk out ->
        exists f', parse_text letter digit out = ParseOk f' /\
-                  sem out f' = sem t f /\ gaps out f' = gaps t f.
+                  sem out f' = sem t f /\ gaps out f' = gaps t f,
 
-   What is proved: everything around it (totality, shape, determinacy by meaning and gaps,
-   idempotence GIVEN the round trip, the unparseable case), and the round trip for files
-   without directives (C08_roundtrip_partial).                                              *)
+   quantifies over EVERY classification of letters and digits and is FALSE in that
+   generality (C08_roundtrip_unrestricted_refuted: if the blank counts as a letter, the
+   formatter's "X 1 Y" is one commodity).  The theorem therefore carries the hypothesis
+   [class_ok letter digit]: tab, newline, CR, blank, ')' ',' '#' '*' '/' are neither letters nor
+   digits and 'i' is alphanumeric.  It holds of Go's unicode.IsLetter / unicode.IsDigit
+   (C08_class_ok_unicode), so for the real parser the round trip (C08_roundtrip_unicode) and
+   idempotence (C08_idem_unicode) hold without any hypothesis.  The other statements hold for
+   every classification.                                                                    *)
 From Coq Require Import String ZArith List Bool.
 From Knut Require Import Model.Bytes Model.Utf8 Model.UnicodeTables Model.Scanner Model.Parser
   Model.SynPrinter Spec.SyntaxSpec Proofs.ScannerProofs Proofs.ParserProofs Spec.FormatSpec Model.SynRender
-  Proofs.FormatProofs.
+  Proofs.FormatProofs Proofs.RoundTripLeaf Proofs.RoundTripFile Proofs.RoundTripTop.
 Import ListNotations.
 Open Scope Z_scope.
+
+(* ---- the round trip ---- *)
+
+(* parsing the formatted text yields the same meaning and the same gaps *)
+Theorem C08_roundtrip : forall letter digit t f out,
+  class_ok letter digit ->
+  parse_text letter digit t = ParseOk f -> format_text letter digit t f = FOk out ->
+  exists f', parse_text letter digit out = ParseOk f' /\
+             sem out f' = sem t f /\ gaps out f' = gaps t f.
+Proof. exact roundtrip. Qed.
+Print Assumptions C08_roundtrip.
+
+(* Go's classification (unicode.IsLetter, unicode.IsDigit) satisfies the hypothesis *)
+Theorem C08_class_ok_unicode : class_ok is_letter is_digit.
+Proof. exact unicode_class_ok. Qed.
+Print Assumptions C08_class_ok_unicode.
+
+Theorem C08_roundtrip_unicode : forall t f out,
+  parse_text is_letter is_digit t = ParseOk f -> format_text is_letter is_digit t f = FOk out ->
+  exists f', parse_text is_letter is_digit out = ParseOk f' /\
+             sem out f' = sem t f /\ gaps out f' = gaps t f.
+Proof. exact roundtrip_unicode. Qed.
+Print Assumptions C08_roundtrip_unicode.
+
+(* without the hypothesis on the classification the statement is false *)
+Theorem C08_roundtrip_unrestricted_refuted :
+  exists letter digit t f out,
+    parse_text letter digit t = ParseOk f /\ format_text letter digit t f = FOk out /\
+    ~ exists f', parse_text letter digit out = ParseOk f' /\ sem out f' = sem t f /\ gaps out f' = gaps t f.
+Proof. exact roundtrip_unrestricted_refuted. Qed.
+Print Assumptions C08_roundtrip_unrestricted_refuted.
+
+(* idempotence: the formatted text parses, and formatting it again changes nothing *)
+Theorem C08_idem : forall letter digit t f out,
+  class_ok letter digit ->
+  parse_text letter digit t = ParseOk f -> format_text letter digit t f = FOk out ->
+  exists f', parse_text letter digit out = ParseOk f' /\ format_text letter digit out f' = FOk out.
+Proof. exact idem. Qed.
+Print Assumptions C08_idem.
+
+Theorem C08_idem_unicode : forall t f out,
+  parse_text is_letter is_digit t = ParseOk f -> format_text is_letter is_digit t f = FOk out ->
+  exists f', parse_text is_letter is_digit out = ParseOk f' /\ format_text is_letter is_digit out f' = FOk out.
+Proof. exact idem_unicode. Qed.
+Print Assumptions C08_idem_unicode.
+
+(* the command: `knut format` on a file it has rewritten rewrites it to the same bytes *)
+Theorem C08_cmd_idem : forall letter digit t n,
+  class_ok letter digit -> format_cmd letter digit t = Rewritten n -> format_cmd letter digit n = Rewritten n.
+Proof. exact format_cmd_idem. Qed.
+Print Assumptions C08_cmd_idem.
+
+(* ---- around it ---- *)
 
 (* A file that does not parse is left exactly as it was (the command does not write). *)
 Theorem C08_unparseable : forall letter digit t e,
@@ -63,8 +127,8 @@ Proof. exact format_determined. Qed.
 Print Assumptions C08_format_determined.
 
 (* Idempotence is a consequence of the round trip: whenever the formatted text parses to the
-   same meaning and gaps, formatting it again changes nothing.
-   (C08_idem in full = this composed with C08_roundtrip.) *)
+   same meaning and gaps, formatting it again changes nothing (for every classification;
+   C08_idem = this composed with C08_roundtrip). *)
 Theorem C08_idem_of_roundtrip : forall letter digit t f o f',
   parse_text letter digit t = ParseOk f -> format_text letter digit t f = FOk o ->
   parse_text letter digit o = ParseOk f' -> sem o f' = sem t f -> gaps o f' = gaps t f ->
@@ -72,12 +136,13 @@ Theorem C08_idem_of_roundtrip : forall letter digit t f o f',
 Proof. exact idem_of_roundtrip. Qed.
 Print Assumptions C08_idem_of_roundtrip.
 
-(* the round trip for files that consist of comments, headings and blank lines only *)
-Theorem C08_roundtrip_partial : forall letter digit t f,
+(* files that consist of comments, headings and blank lines only are left as they are
+   (every classification) *)
+Theorem C08_no_directives_unchanged : forall letter digit t f,
   parse_text letter digit t = ParseOk f -> f_directives f = [] ->
   format_text letter digit t f = FOk t.
 Proof. exact format_no_directives. Qed.
-Print Assumptions C08_roundtrip_partial.
+Print Assumptions C08_no_directives_unchanged.
 
 (* the round trip and idempotence for texts that are already in formatted form *)
 Theorem C08_roundtrip_on_formatted : forall letter digit t f,
